@@ -395,6 +395,21 @@ def reject_episodes(seed, count):
             eps.append(episode("reject", [{"op": "new", "n": n, "u": L(u)},
                                           {"op": "extend", "xs": [L(x) for x in bad]},
                                           {"op": "push", "x": L(0)}, {"op": "build", "kind": "seq"}]))
+        # an internally monotone batch that starts below the last value already accepted
+        # (by push or by an earlier extend) must be rejected as well
+        if n >= 2 and xs[n // 2] > 0:
+            k = r.randrange(1, n)
+            while k < n and xs[k - 1] == 0:
+                k += 1
+            if k < n and xs[k - 1] > 0:
+                low = r.randrange(0, xs[k - 1])
+                batch = sorted([low] + [r.randrange(low, u + 1) if u < 2 ** 40 else min(M, low + r.randrange(1000))
+                                        for _ in range(r.randrange(0, n - k))])
+                pre = ([{"op": "push", "x": L(x)} for x in xs[:k]] if r.random() < 0.5
+                       else [{"op": "extend", "xs": [L(x) for x in xs[:k]]}])
+                eps.append(episode("reject", [{"op": "new", "n": n, "u": L(u)}] + pre +
+                                   [{"op": "extend", "xs": [L(x) for x in batch]},
+                                    {"op": "push", "x": L(xs[k - 1])}, {"op": "build", "kind": "seq"}]))
         # From<slice> on a non-monotone slice
         if n >= 2 and xs[0] != xs[-1]:
             bad = list(xs)
